@@ -20,8 +20,8 @@
 
 using namespace asl;
 
-enum Ev { ACCEPTED, SERVE_ENTER, SERVE_EXIT, STOP_CALLED, STOP_RETURNED, DESTROYED, CLIENT_CONNECTED, CLIENT_ECHO, CLIENT_EOF, CLIENT_NOEOF, CLIENT_FAIL };
-static const char* EVN[] = {"accepted", "serve_enter", "serve_exit", "stop_called", "stop_returned", "destroyed", "client_connected", "client_echo", "client_eof", "client_no_eof", "client_fail"};
+enum Ev { ACCEPTED, SERVE_ENTER, SERVE_EXIT, STOP_CALLED, STOP_RETURNED, DESTROYED, CLIENT_CONNECTED, CLIENT_ECHO, CLIENT_EOF, CLIENT_NOEOF, CLIENT_FAIL, ASYNC_STOP_LOOP_ENDED };
+static const char* EVN[] = {"accepted", "serve_enter", "serve_exit", "stop_called", "stop_returned", "destroyed", "client_connected", "client_echo", "client_eof", "client_no_eof", "client_fail", "async_stop_waited"};
 
 struct Event { Ev e; std::string token; int fd; double t; };
 
@@ -74,8 +74,10 @@ struct Server : public SocketServer
 };
 
 // accept events from the library's accept loop (hook placed right after accept())
+static std::atomic<int> g_loopExited(0);
 static void c14_hook(int id, const volatile void* obj)
 {
+	if (id == ASL_VP_SRV_LOOP_EXIT) g_loopExited = 1;
 	if (id == ASL_VP_SRV_ACCEPTED && g_log) {
 		Socket* s = (Socket*)obj;
 		g_log->add(ACCEPTED, "", s->handle());
@@ -178,13 +180,17 @@ static void mode_hist(vf::Ctx& c)
 	int stopWhen = c.rng.below(3);  // 0 = before/while clients connect, 1 = mid-burst, 2 = after all clients are done
 	uint64_t seed = c.rng.next();
 	int jm = c.rng.below(4);
+	// two-step shutdown: stop(false), the accept loop ends while a serve() call is still in flight, then stop(true)
+	bool twoStep = !sequential && c.rng.chance(0.25);
+	if (twoStep) { N = c.rng.range(2, 8); stopWhen = 1; }
 	std::string path = c.opt->out + vf::fmt("/s%llu.sock", (unsigned long long)c.idx);
 	unlink(path.c_str());
-	c.desc(vf::fmt("%s %s%s%s, %d clients, stop %s, jitter %d", unixSock ? "unix" : "tcp", sequential ? "sequential" : "concurrent", blockingStart ? ", start() in its own thread" : "",
-	               keepCopies ? ", serve() keeps a copy of each socket" : "", N, stopWhen == 0 ? "early" : stopWhen == 1 ? "mid-burst" : "after all", jm));
+	c.desc(vf::fmt("%s %s%s%s, %d clients, stop %s%s, jitter %d", unixSock ? "unix" : "tcp", sequential ? "sequential" : "concurrent", blockingStart ? ", start() in its own thread" : "",
+	               keepCopies ? ", serve() keeps a copy of each socket" : "", N, twoStep ? "asynchronously, then again synchronously once the accept loop has ended; first" : "", stopWhen == 0 ? "early" : stopWhen == 1 ? "mid-burst" : "after all", jm));
 	Log log;
 	g_log = &log;
 	g_badSocketInServe = 0;
+	g_loopExited = 0;
 	if (jm == 1) sched::jitter(seed, 0.3, 300);
 	else if (jm == 2) sched::jitter(seed, 0.05, 2000);
 	else if (jm == 3) sched::jitter(seed, 1.0, 160000, 1u << ASL_VP_THREAD_ENTRY);   // every new thread starts late (longer than stop()'s 100 ms poll)
@@ -192,6 +198,7 @@ static void mode_hist(vf::Ctx& c)
 
 	Server* srv = new Server;
 	srv->serveDelayUs = c.rng.chance(0.5) ? 0 : c.rng.range(100, 20000);
+	if (twoStep) srv->serveDelayUs = c.rng.range(300000, 700000);
 	srv->setSequential(sequential);
 	srv->keepCopies = keepCopies;
 	bool bound = unixSock ? srv->bindPath(path.c_str()) : srv->bind("127.0.0.1", 0);
@@ -224,6 +231,16 @@ static void mode_hist(vf::Ctx& c)
 
 	std::thread late;
 	log.add(STOP_CALLED);
+	if (twoStep) {
+		srv->stop(false);
+		launch(1);   // a connection wakes the accept loop, which then sees the request and ends
+		// running() also counts clients, so the end of the accept loop is taken from its hook (which fires just before _running is cleared)
+		for (int i = 0; i < 2500 && !g_loopExited; i++) { struct timespec ts = {0, 1000000}; nanosleep(&ts, 0); }
+		{ struct timespec ts = {0, 5000000}; nanosleep(&ts, 0); }
+		log.add(ASYNC_STOP_LOOP_ENDED);
+		c.count(g_loopExited ? "two_step_loop_ended_before_sync_stop" : "two_step_loop_still_running");
+		if (g_loopExited && srv->running()) c.count("two_step_sync_stop_with_serve_in_flight");
+	}
 	if (stopWhen == 1) late = std::thread([&]() { launch(N); });   // clients keep arriving while stop(true) is in progress
 	srv->stop(true);
 	bool runningAfter = srv->running();
